@@ -54,11 +54,11 @@ func init() {
 		}{
 			{L("(recv.Route == nil)", true), "a configuration without route"},
 			{L("(len(recv.Route.Receiver) == 0)", true), "a root route without receiver"},
-			{L("(len(recv.Route.Match) == 0)", false), "a root route with match"},
-			{L("(len(recv.Route.MatchRE) == 0)", false), "a root route with match_re"},
-			{L("(len(recv.Route.Matchers) == 0)", false), "a root route with matchers"},
-			{L("(len(recv.Route.MuteTimeIntervals) == 0)", false), "a root route with mute time intervals"},
-			{L("(len(recv.Route.ActiveTimeIntervals) == 0)", false), "a root route with active time intervals"},
+			{nonEmptyLit("recv.Route.Match"), "a root route with match"},
+			{nonEmptyLit("recv.Route.MatchRE"), "a root route with match_re"},
+			{nonEmptyLit("recv.Route.Matchers"), "a root route with matchers"},
+			{nonEmptyLit("recv.Route.MuteTimeIntervals"), "a root route with mute time intervals"},
+			{nonEmptyLit("recv.Route.ActiveTimeIntervals"), "a root route with active time intervals"},
 			{LRe(`makemap:map\[string\]struct\{\}\[recv\.Receivers\[i\]\.Name\]#1`, true), "a duplicate receiver name"},
 			{LRe(`makemap:map\[string\]struct\{\}\[recv\.MuteTimeIntervals\[i\]\.Name\]#1`, true), "a duplicate mute time interval name"},
 			{LRe(`makemap:map\[string\]struct\{\}\[recv\.TimeIntervals\[i\]\.Name\]#1`, true), "a duplicate time interval name"},
@@ -836,4 +836,11 @@ func errAfter(o *Ob, fn *ssa.Function, start ssa.Instruction, failed LitM, errv,
 			o.Check(v == errv || strings.Contains(v, errv) && v != "nil", key, what+", returns "+clip(v), ret)
 		}
 	}
+}
+
+// nonEmptyLit: the list x is tested to be non-empty, alone or as a term of a sum of lengths that is tested to be
+// positive (x non-empty ⇒ the sum is positive ⇒ the same branch).
+func nonEmptyLit(x string) LitM {
+	q := regexpQuote("len(" + x + ")")
+	return LRe(`\(`+q+` == 0\)|\(`+q+` < 1\)|\(\(.*`+q+`.*\) < 1\)|\(\(.*`+q+`.*\) == 0\)`, false)
 }
